@@ -167,6 +167,14 @@ class LibMixin:
             r = {'floor': lambda: z3.fpRoundToIntegral(z3.RTN(), x), 'ceil': lambda: z3.fpRoundToIntegral(z3.RTP(), x),
                  'trunc': lambda: z3.fpRoundToIntegral(z3.RTZ(), x), 'sqrt': lambda: z3.fpSqrt(z3.RNE(), x), 'abs': lambda: z3.fpAbs(x)}[n]()
             return JSResult(r)
+        if n == 'pow' and len(vals) == 2 and z3.is_int_value(z3.simplify(vals[0])) and z3.simplify(vals[0]).as_long() == 2 \
+           and z3.is_int(vals[1]) and 'pow2' in self.spec.pures:
+            # Math.pow(2, n), n an integer: the power of two when it is a double (2^-1074 .. 2^1023), +Infinity above, +0 below.
+            # ECMA-262 leaves Number::exponentiate implementation-approximated; that engines return the exact power of two is
+            # an assumption, `pow2` is the contract file's name for it.
+            self.assumed.add('Math.pow(2, n) for an integer n is exactly 2^n when representable (-1074 <= n <= 1023), +Infinity above, +0 below')
+            k = vals[1]
+            return JSResult(z3.If(k > 1023, z3.fpPlusInfinity(F64), z3.If(k < -1074, z3.fpPlusZero(F64), self.pure_decl('pow2')(k))))
         self.assumed.add('Math.%s is implementation-approximated (ECMA-262 does not fix its bits): opaque' % n)
         f = z3.Function('Math_' + n, *([F64] * len(vals) + [F64])) if all(z3.is_fp(v) for v in vals) else None
         if f is None:
